@@ -207,6 +207,8 @@ def gen_program(tape, feat):
             if e == "ret":
                 node["enter_val"] = True if kind == "doer" else tape.pick("retval", feat["retvals"])
             node["steps"] = gen_steps(kind, nid) if e == "ok" else []
+            if feat.get("exit_touch") and tape.flag("exit_touch", 1, 8):
+                node["exit_touch"] = tape.pick("exit_touch_how", ["remove_none", "extend_none"])
         return nid
 
     nroots = 1 + tape.draw("nroots", feat["max_roots"])
@@ -247,6 +249,8 @@ def prog_readable(prog):
         else:
             d["enter"] = n["enter"] if n["enter"] != "ret" else "ret:%r" % (n.get("enter_val"),)
             d["steps"] = n["steps"]
+            if n.get("exit_touch"):
+                d["exit_touch"] = n["exit_touch"]
         return d
     return dict(doist=dict(tock=prog["T"], tyme=prog["t0"], limit=prog["limit"], real=prog["real"],
                            kbint_sleep=prog.get("kbint_sleep"), via_args=prog.get("args")),
@@ -469,6 +473,23 @@ def _on_enter(run, nid):
     return None
 
 
+def _exit_touch(run, nid):
+    """a doer's exit context may use its scheduler (here: calls that change nothing): while the scheduler is shutting
+    down, force-closing or removing, such a call must not upset it"""
+    how = run.prog["nodes"][nid].get("exit_touch")
+    if not how:
+        return
+    st = run.st[nid]
+    sched = st.parent if st.parent is not None else run.doist
+    if sched is None:
+        return
+    run.fault("exit_context_calls_scheduler")
+    if how == "remove_none":
+        sched.remove([])
+    else:
+        sched.extend([])
+
+
 def _make_genfunc(run, nid):
     """generator function following hio's documented bareDo template"""
     def gf(tymth, tock=0.0, *, temp=None, **opts):
@@ -500,6 +521,7 @@ def _make_genfunc(run, nid):
         finally:
             st.exited += 1
             run.ev("exit", nid)
+            _exit_touch(run, nid)
         return done
     return gf
 
@@ -539,6 +561,7 @@ def build(prog, res=None):
         def exit(s):
             run.st[s._nid].exited += 1
             run.ev("exit", s._nid)
+            _exit_touch(run, s._nid)
 
     class TGenDoer(TDoer):
         def enter(s, *, temp=None):
